@@ -242,11 +242,13 @@ func TestVerifC22Balancers(t *testing.T) {
 			var mu sync.Mutex
 			out.Counts = map[string]int{}
 			var wg sync.WaitGroup
+			start := make(chan struct{})
 			for g := 0; g < c.G; g++ {
 				wg.Add(1)
 				go func() {
 					defer wg.Done()
 					local := map[string]int{}
+					<-start
 					for i := 0; i < c.Calls; i++ {
 						n, p := c22Next(b)
 						if p != "" {
@@ -262,6 +264,7 @@ func TestVerifC22Balancers(t *testing.T) {
 					mu.Unlock()
 				}()
 			}
+			close(start)
 			wg.Wait()
 		}
 		w.put(out)
